@@ -153,6 +153,45 @@ Theorem C12_new_object_size : forall (p : params) (ops : list qop) o cls want,
 Proof. exact new_object_size_l. Qed.
 Print Assumptions C12_new_object_size.
 
+(* ---- thread_stacksize::current (inherit the creator's class) ----
+   A task created with `current` by a task of class c — through the immediate path (run_now: high / boost
+   priority, register_thread) or as a staged description that some worker converts later, in whatever
+   context [conv] that conversion runs — gets the class c: its stack has the size configured for c and it
+   reports c itself.  Holds because thread_queue::create_thread resolves `current` in the creator's
+   context before the two paths split (Gen.current_resolution = CurBeforeSplit, regenerated). *)
+Theorem C12_current_inherits_creator_class : forall (path : cpath) (c : sclass) (conv : option sclass),
+  created_class path (Some c) conv Current = c /\ created_enum path (Some c) Current = Some c.
+Proof. exact created_class_current_l. Qed.
+Print Assumptions C12_current_inherits_creator_class.
+
+(* children, grandchildren, ...: any chain of `current` creations through any paths keeps the class *)
+Theorem C12_current_inherits_through_generations : forall (gens : list (cpath * option sclass * sreq)) (c : sclass),
+  (forall g, In g gens -> snd g = Current) -> descend c gens = c.
+Proof. exact descend_current_l. Qed.
+Print Assumptions C12_current_inherits_through_generations.
+
+(* ... and the thread object such a child runs on (fresh or recycled, any size configuration, any
+   create / terminate history of the queue) has the stack size configured for the creator's class *)
+Theorem C12_current_child_stack_size : forall (p : params) (ops : list qop) (path : cpath) (c : sclass)
+    (conv : option sclass) o want,
+  In (EvRebound o (created_class path (Some c) conv Current) want) (qlog (q_run p ops)) \/
+  In (EvNew o (created_class path (Some c) conv Current) want) (qlog (q_run p ops)) ->
+  osize o = get_stack_size p c.
+Proof. exact current_child_object_size_l. Qed.
+Print Assumptions C12_current_child_stack_size.
+
+(* an explicit class is never changed by the creation paths; `current` without a creating task
+   (plain OS thread) is get_self_stacksize_enum()'s fallback class *)
+Theorem C12_explicit_class_kept : forall (path : cpath) (creator conv : option sclass) (c : sclass),
+  created_class path creator conv (Explicit c) = c /\ created_enum path creator (Explicit c) = Some c.
+Proof. exact created_class_explicit_l. Qed.
+Print Assumptions C12_explicit_class_kept.
+
+Theorem C12_current_without_creator : forall (path : cpath) (conv : option sclass),
+  created_class path None conv Current = no_self_class.
+Proof. exact created_class_no_task_l. Qed.
+Print Assumptions C12_current_without_creator.
+
 (* ---- non-vacuity ---- *)
 (* a concrete run of the routine: A (rsp = 0x10000, callee-saved 11..16) switches to a frame at
    0x30000 holding 101..108, start address 0x400123, argument 0x77 *)
@@ -189,3 +228,13 @@ Example C12_example_rebind :
   map (rebind_base init dirty) all_tfields
   = [VState 3 1; VZ 2; VB false; VB true; VB false; VNil; VZ 5; VZ no_worker; VZ 5; VZ 9; VZ 32768; VZ 9].
 Proof. vm_compute. reflexivity. Qed.
+
+(* `current` through three generations of a huge task: staged (converted by a worker outside any task),
+   immediate, staged converted inside a small task — all huge; and why the place of the resolution
+   matters: were `current` resolved only on the immediate path, the staged child of a huge task,
+   converted by a worker, would get get_self_stacksize_enum()'s fallback class *)
+Example C12_example_current :
+  descend Huge [(Staged, None, Current); (RunNow, None, Current); (Staged, Some Small, Current)] = Huge /\
+  resolve None (create_prologue_at CurRunNowOnly Staged (Some Huge) Current) = Small /\
+  resolve (Some Huge) (create_prologue_at CurRunNowOnly RunNow (Some Huge) Current) = Huge.
+Proof. vm_compute. repeat split; reflexivity. Qed.
